@@ -30,10 +30,52 @@ type c19FlavVar struct {
 	Default string `json:"default"` // source text; "" = declared without default (nil)
 }
 
+// A selection of instance variables given to :gettable-/:settable-/:inittable-instance-variables:
+// nil = the option is absent, ["*"] = the bare option (every variable the flavor has when it is
+// defined, inherited ones included), otherwise the listed names (own or inherited variables).
+type c19FlavSel []string
+
+func (sel c19FlavSel) option(key string) string {
+	switch {
+	case len(sel) == 0:
+		return ""
+	case len(sel) == 1 && sel[0] == "*":
+		return " " + key
+	}
+	return " (" + key + " " + strings.Join(sel, " ") + ")"
+}
+
+func (sel c19FlavSel) label() string {
+	switch {
+	case len(sel) == 0:
+		return "none"
+	case len(sel) == 1 && sel[0] == "*":
+		return "bare"
+	}
+	return strings.Join(sel, "+")
+}
+
 type c19FlavDef struct {
 	Name  string       `json:"name"`
 	Vars  []c19FlavVar `json:"vars"`
 	Comps []string     `json:"comps"`
+	// Options of the definition. Classic = the three bare options (the worlds of round 2).
+	Classic bool       `json:"classic,omitempty"`
+	Get     c19FlavSel `json:"get,omitempty"`
+	Set     c19FlavSel `json:"set,omitempty"`
+	Init    c19FlavSel `json:"init,omitempty"`
+	Extra   string     `json:"extra,omitempty"` // further options, source text
+}
+
+func (d *c19FlavDef) options() string {
+	if d.Classic {
+		return " :gettable-instance-variables :settable-instance-variables :inittable-instance-variables"
+	}
+	out := d.Get.option(":gettable-instance-variables") + d.Set.option(":settable-instance-variables") + d.Init.option(":inittable-instance-variables")
+	if d.Extra != "" {
+		out += " " + d.Extra
+	}
+	return out
 }
 
 type c19FlavWorld struct {
@@ -58,8 +100,8 @@ func (w *c19FlavWorld) forms(prefix string) []string {
 		for _, cn := range d.Comps {
 			comps = append(comps, prefix+cn)
 		}
-		out = append(out, fmt.Sprintf("(defflavor %s%s (%s) (%s) :gettable-instance-variables :settable-instance-variables :inittable-instance-variables)",
-			prefix, d.Name, strings.Join(vars, " "), strings.Join(comps, " ")))
+		out = append(out, fmt.Sprintf("(defflavor %s%s (%s) (%s)%s)",
+			prefix, d.Name, strings.Join(vars, " "), strings.Join(comps, " "), d.options()))
 	}
 	return out
 }
@@ -72,7 +114,7 @@ var c19FlavDefaultPool = []struct{ name, src string }{
 
 func c19FlavSweep() []c19FlavWorld {
 	d := func(name string, comps []string, vars ...string) c19FlavDef {
-		fd := c19FlavDef{Name: name, Comps: comps}
+		fd := c19FlavDef{Name: name, Comps: comps, Classic: true}
 		for i := 0; i+1 < len(vars); i += 2 {
 			fd.Vars = append(fd.Vars, c19FlavVar{Name: vars[i], Default: vars[i+1]})
 		}
@@ -99,6 +141,59 @@ func c19FlavSweep() []c19FlavWorld {
 		d("f", []string{"b", "c"}, "v", "3"))
 	add("mixins-unrelated", d("m1", nil, "v", "1"), d("m2", nil, "v", "2"), d("e", []string{"m1", "m2"}, "v", "2"), d("f", []string{"m2", "m1"}, "v", "1"))
 	add("explicit-components-repeat-ancestor", d("a", nil, "v", "1"), d("b", []string{"a"}, "v", "2"), d("c", []string{"b", "a"}, "v", "1"))
+	// --- the options that decide which operations and init keywords the flavor has: every
+	// combination of {absent, bare, every variable listed, one variable, two variables} for the
+	// three options of a flavor with three variables (the load form may abbreviate a selection to
+	// the bare option only when it is the complete one OF THAT OPTION)
+	o := func(fd c19FlavDef, get, set, init c19FlavSel, extra string) c19FlavDef {
+		fd.Classic, fd.Get, fd.Set, fd.Init, fd.Extra = false, get, set, init, extra
+		return fd
+	}
+	sels := []c19FlavSel{nil, {"*"}, {"a", "b", "c"}, {"a"}, {"b", "c"}}
+	for _, g := range sels {
+		for _, st := range sels {
+			for _, in := range sels {
+				add(fmt.Sprintf("options/get-%s/set-%s/init-%s", g.label(), st.label(), in.label()), o(d("a", nil, "a", "1", "b", "", "c", "\"s\""), g, st, in, ""))
+			}
+		}
+	}
+	// one and two variables: "all of them" and "one of them" coincide or nearly so
+	for _, p := range [][3]c19FlavSel{{{"*"}, {"a"}, nil}, {{"a"}, {"*"}, nil}, {{"a", "b"}, {"b"}, {"a"}}, {{"b"}, {"a", "b"}, {"*"}}, {{"*"}, nil, {"b"}}, {nil, {"*"}, {"a", "b"}}} {
+		add(fmt.Sprintf("options-2/get-%s/set-%s/init-%s", p[0].label(), p[1].label(), p[2].label()), o(d("a", nil, "a", "1", "b", "2"), p[0], p[1], p[2], ""))
+	}
+	add("options-1/get-bare", o(d("a", nil, "a", "1"), c19FlavSel{"*"}, nil, nil, ""))
+	add("options-1/set-a-init-a", o(d("a", nil, "a", "1"), nil, c19FlavSel{"a"}, c19FlavSel{"a"}, ""))
+	add("options-0/all-bare", o(d("a", nil), c19FlavSel{"*"}, c19FlavSel{"*"}, c19FlavSel{"*"}, ""))
+	// options and inheritance: the bare option of a child covers the inherited variables, a list may
+	// name them, a parent's selection is inherited
+	par := func(get, set, init c19FlavSel) c19FlavDef { return o(d("a", nil, "v", "1", "w", "2"), get, set, init, "") }
+	for _, p := range []struct {
+		name           string
+		pg, ps, pi     c19FlavSel
+		cg, cs, ci     c19FlavSel
+		childVars      []string
+	}{
+		{"parent-bare/child-none", c19FlavSel{"*"}, c19FlavSel{"*"}, c19FlavSel{"*"}, nil, nil, nil, []string{"x", "3"}},
+		{"parent-some/child-bare", c19FlavSel{"v"}, c19FlavSel{"w"}, c19FlavSel{"v"}, c19FlavSel{"*"}, c19FlavSel{"*"}, c19FlavSel{"*"}, []string{"x", "3"}},
+		{"parent-none/child-bare", nil, nil, nil, c19FlavSel{"*"}, c19FlavSel{"*"}, c19FlavSel{"*"}, []string{"x", "3"}},
+		{"parent-none/child-own-only", nil, nil, nil, c19FlavSel{"x"}, c19FlavSel{"x"}, c19FlavSel{"x"}, []string{"x", "3", "y", "4"}},
+		{"parent-none/child-all-own", nil, nil, nil, c19FlavSel{"x", "y"}, c19FlavSel{"x", "y"}, c19FlavSel{"x", "y"}, []string{"x", "3", "y", "4"}},
+		{"parent-none/child-lists-inherited", nil, nil, nil, c19FlavSel{"v", "x"}, c19FlavSel{"v"}, c19FlavSel{"w", "x"}, []string{"x", "3"}},
+		{"parent-none/child-only-inherited", nil, nil, nil, c19FlavSel{"v"}, c19FlavSel{"w"}, c19FlavSel{"v"}, []string{"x", "3"}},
+		{"parent-get/child-get-all-set-some", c19FlavSel{"*"}, nil, nil, c19FlavSel{"*"}, c19FlavSel{"x"}, nil, []string{"x", "3", "y", "4"}},
+		{"parent-none/child-redeclares-same-default", nil, nil, nil, c19FlavSel{"*"}, c19FlavSel{"v"}, c19FlavSel{"v"}, []string{"v", "1"}},
+		{"parent-some/child-redeclares-other-default", c19FlavSel{"v"}, nil, c19FlavSel{"w"}, c19FlavSel{"v", "w"}, c19FlavSel{"v"}, nil, []string{"v", "5"}},
+		{"parent-bare/child-no-own-variables-bare", c19FlavSel{"*"}, nil, c19FlavSel{"*"}, c19FlavSel{"*"}, c19FlavSel{"*"}, nil, nil},
+	} {
+		add("options-inherit/"+p.name, par(p.pg, p.ps, p.pi), o(d("b", []string{"a"}, p.childVars...), p.cg, p.cs, p.ci, ""))
+	}
+	// further options of the definition (compared through the description of the flavor)
+	for _, p := range [][2]string{{"documentation", "(:documentation \"A flavor with words.\")"}, {"default-init-plist", "(:default-init-plist (:k 4) (:m \"s\"))"},
+		{"default-init-plist-allow-other-keys", "(:default-init-plist (:allow-other-keys t) (:k 4))"}, {"init-keywords", "(:init-keywords :k :m)"},
+		{"required-init-keywords", "(:init-keywords :k) (:required-init-keywords :k)"}, {"abstract", ":abstract-flavor"}, {"no-vanilla", ":no-vanilla-flavor"},
+		{"required-instance-variables", "(:required-instance-variables a)"}, {"required-methods", ":abstract-flavor (:required-methods :go)"}} {
+		add("options-extra/"+p[0], o(d("a", nil, "a", "1", "b", "2"), c19FlavSel{"*"}, c19FlavSel{"a"}, c19FlavSel{"b"}, p[1]))
+	}
 	return out
 }
 
@@ -113,6 +208,7 @@ func c19RandFlavWorld(r *lib.Rng, listed func(string) bool) c19FlavWorld {
 	w := c19FlavWorld{}
 	n := 3 + r.Intn(5)
 	vars := []string{"va", "vb", "vc"}
+	known := map[string][]string{} // flavor -> every variable it has
 	for i := 0; i < n; i++ {
 		fd := c19FlavDef{Name: fmt.Sprintf("f%d", i)}
 		if i > 0 {
@@ -152,6 +248,58 @@ func c19RandFlavWorld(r *lib.Rng, listed func(string) bool) c19FlavWorld {
 		if r.Chance(30) {
 			fd.Vars = append(fd.Vars, c19FlavVar{Name: fmt.Sprintf("own%d", i), Default: fmt.Sprint(r.Intn(9))})
 		}
+		if r.Chance(30) {
+			fd.Vars = append(fd.Vars, c19FlavVar{Name: fmt.Sprintf("two%d", i), Default: ""})
+		}
+		// every variable the flavor has: own and inherited
+		seenVar := map[string]bool{}
+		var own, every []string
+		for _, v := range fd.Vars {
+			own = append(own, v.Name)
+			every = append(every, v.Name)
+			seenVar[v.Name] = true
+		}
+		for _, cn := range fd.Comps {
+			for _, v := range known[cn] {
+				if !seenVar[v] {
+					seenVar[v] = true
+					every = append(every, v)
+				}
+			}
+		}
+		known[fd.Name] = every
+		if listed("options/get-bare/set-a/init-none") || r.Chance(25) {
+			fd.Classic = true
+		} else {
+			pick := func() c19FlavSel {
+				switch k := r.Intn(100); {
+				case k < 20 || len(every) == 0:
+					return nil
+				case k < 45:
+					return c19FlavSel{"*"}
+				case k < 60 && len(own) > 0:
+					return append(c19FlavSel{}, own...) // every own variable, listed
+				}
+				pool := own
+				if (r.Chance(40) || len(own) == 0) && !listed("options-inherit/parent-none/child-lists-inherited") {
+					pool = every
+				}
+				var sel c19FlavSel
+				for _, v := range pool {
+					if r.Chance(50) {
+						sel = append(sel, v)
+					}
+				}
+				if len(sel) == 0 {
+					sel = c19FlavSel{pool[r.Intn(len(pool))]}
+				}
+				return sel
+			}
+			fd.Get, fd.Set, fd.Init = pick(), pick(), pick()
+			if r.Chance(20) && !listed("options-extra/documentation") {
+				fd.Extra = fmt.Sprintf("(:documentation \"Flavor number %d.\")", i)
+			}
+		}
 		w.Defs = append(w.Defs, fd)
 	}
 	return w
@@ -186,6 +334,9 @@ func c19CheckFlavWorld(c *lib.Ctx, w *c19FlavWorld, margins []int, all bool) (re
 		if f == nil {
 			return nil, "flavor " + name + " is not defined"
 		}
+		if ab, _ := f.Simplify().(map[string]any)["abstract"].(bool); ab {
+			return map[string]c19SlotState{}, "" // no instances
+		}
 		o := lib.Protect(func() slip.Object { return f.MakeInstance() })
 		inst, ok := o.Value.(slip.Instance)
 		if !o.Ok || !ok {
@@ -201,6 +352,61 @@ func c19CheckFlavWorld(c *lib.Ctx, w *c19FlavWorld, margins []int, all bool) (re
 			}
 		}
 		return out
+	}
+	// what the flavor offers to its users: the operations an instance handles, for every variable
+	// whether it can be given to make-instance, read with :v and set with :set-v (behaviour, not
+	// only the method table), and the remaining properties of the definition
+	iface := func(name string) []string {
+		f := flavors.Find(name)
+		if f == nil {
+			return []string{"not defined"}
+		}
+		var out []string
+		var ops []string
+		for _, m := range f.MethodNames() {
+			ops = append(ops, c19Show(m))
+		}
+		out = append(out, "operations: "+strings.Join(ops, " "))
+		simple, _ := f.Simplify().(map[string]any)
+		var vars []string
+		if dv, ok := simple["defaultVars"].(map[string]any); ok {
+			for v := range dv {
+				if v != "self" {
+					vars = append(vars, v)
+				}
+			}
+		}
+		sort.Strings(vars)
+		show := func(src string) string {
+			o := lib.EvalString(scope, src)
+			if !o.Ok {
+				return "ERROR " + o.Class
+			}
+			return c19Show(o.Value)
+		}
+		for _, v := range vars {
+			out = append(out, fmt.Sprintf("(make-instance … :%s 77) then %s: %s", v, v, show(fmt.Sprintf("(slot-value (make-instance '%s :%s 77) '%s)", name, v, v))))
+			out = append(out, fmt.Sprintf("(send i :%s): %s", v, show(fmt.Sprintf("(send (make-instance '%s) :%s)", name, v))))
+			out = append(out, fmt.Sprintf("(send i :set-%s 78) then %s: %s", v, v, show(fmt.Sprintf("(let ((i (make-instance '%s))) (send i :set-%s 78) (slot-value i '%s))", name, v, v))))
+			out = append(out, fmt.Sprintf("(send i :operation-handled-p :set-%s): %s", v, show(fmt.Sprintf("(send (make-instance '%s) :operation-handled-p :set-%s)", name, v))))
+		}
+		out = append(out, "(make-instance … :zq-other 1): "+show(fmt.Sprintf("(progn (make-instance '%s :zq-other 1) 'made)", name)))
+		for _, k := range []string{"docs", "keywords", "included", "required", "requiredMethods", "requiredVars", "requiredKeywords", "defaultHandler", "abstract", "allowOtherKeys"} {
+			out = append(out, k+": "+strings.ReplaceAll(string(mustJSON(simple[k])), prefix, ""))
+		}
+		return out
+	}
+	ifaceDiff := func(a, b []string) string {
+		var parts []string
+		for i := range a {
+			if i >= len(b) || a[i] != b[i] {
+				parts = append(parts, a[i])
+			}
+		}
+		if len(parts) == 0 && len(a) != len(b) {
+			return fmt.Sprintf("%d observations (other: %d)", len(a), len(b))
+		}
+		return strings.Join(parts, "; ")
 	}
 	// --- the model on this world: effective defaults, inherit lists, load form variables
 	req := "lf flavors"
@@ -294,6 +500,7 @@ func c19CheckFlavWorld(c *lib.Ctx, w *c19FlavWorld, margins []int, all bool) (re
 			return c19FlavObs{obs: &c19Obs{Aspect: "machinery", Observed: ferr}}
 		}
 		wantInh := inherits(name)
+		wantIface := iface(name)
 		f := flavors.Find(name)
 		fo := lib.Protect(func() slip.Object { return f.LoadForm() })
 		if !fo.Ok {
@@ -303,8 +510,9 @@ func c19CheckFlavWorld(c *lib.Ctx, w *c19FlavWorld, margins []int, all bool) (re
 		form := fo.Value
 		formText := strings.ReplaceAll(c19Show(form), prefix, "")
 		// model agreement (recorded once per world)
+		abstract, _ := f.Simplify().(map[string]any)["abstract"].(bool)
 		if m, has := model[d.Name]; has && res.broken == "" {
-			if got := showStates(want); got != m["E"] {
+			if got := showStates(want); got != m["E"] && !abstract { // an abstract flavor has no instances
 				res.broken = fmt.Sprintf("effective defaults of %s: implementation %s, model %s", d.Name, got, m["E"])
 			} else if got := strings.Join(wantInh, " "); got != m["I"] {
 				res.broken = fmt.Sprintf("inherit list of %s: implementation %s, model %s", d.Name, got, m["I"])
@@ -340,6 +548,10 @@ func c19CheckFlavWorld(c *lib.Ctx, w *c19FlavWorld, margins []int, all bool) (re
 			}
 			if a, b := strings.Join(inherits(name), " "), strings.Join(wantInh, " "); a != b {
 				return &c19Obs{Aspect: "not-equal", Margin: mg, Form: formText, Observed: "rebuilt " + d.Name + " inherits " + a, Expected: "inherits " + b}
+			}
+			if gotIface := iface(name); strings.Join(gotIface, "\n") != strings.Join(wantIface, "\n") {
+				return &c19Obs{Aspect: "not-equal", Margin: mg, Form: formText, Observed: "the rebuilt " + d.Name + ": " + ifaceDiff(gotIface, wantIface),
+					Expected: "as the original: " + ifaceDiff(wantIface, gotIface)}
 			}
 			f2 := lib.Protect(func() slip.Object { return flavors.Find(name).LoadForm() })
 			if !f2.Ok || !c19FormEqual(f2.Value, form) {
@@ -452,8 +664,8 @@ func c19RunFlavors(c *lib.Ctx) {
 		}
 		c.Report(sig, w.sweep, map[string]any{"leg": "flavor", "world": w, "sweep": w.sweep, "input": w.input(), "flavor": res.flavor, "load_form": res.obs.Form,
 			"margin": res.obs.Margin, "observed": res.obs.Observed, "expected": res.obs.Expected,
-			"expected_from": "property statement: the flavor rebuilt from its pretty printed load form gives every instance variable the same default; model:lf.flavors",
-			"relies_on":     []string{"SlipVerif.LoadForm.flavor_rebuild_same_defaults", "SlipVerif.LoadForm.session_reload_same_defaults"}})
+			"expected_from": "property statement: the flavor rebuilt from its pretty printed load form is equal to the original: every instance variable has the same default, instances handle the same operations, accept the same init keywords, and the other options of the definition are the same; model:lf.flavors",
+			"relies_on":     []string{"SlipVerif.LoadForm.flavor_rebuild_same_defaults", "SlipVerif.LoadForm.session_reload_same_defaults", "SlipVerif.LoadForm.flavor_options_roundtrip"}})
 	}
 	c.Ev.Coverage["flavor_worlds"] = len(worlds)
 	c.Ev.Coverage["flavor_values"] = nFlav
